@@ -265,6 +265,46 @@ Theorem run_dev_status : forall ref d e a x y,
 Proof. exact run_dev_status_proof. Qed.
 Print Assumptions run_dev_status.
 
+(* the DEFINITION that reaches assert is the library's test case: its alternative allowed
+   codes count through the runner (and no other code does), the merged metadata form passes
+   only where its stream type allows it; the probes of kind c03.rundef read the accepted
+   codes back (for an expectation that agrees with itself) *)
+Theorem runner_hands_over_definition : forall ref d, def_handed_to_assert ref d = d.
+Proof. exact runner_hands_over_definition_proof. Qed.
+Print Assumptions runner_hands_over_definition.
+
+Theorem run_len_other_code : forall ref d e a ea c,
+  run_errs ref d e a = [] -> r_error a = Some ea -> In c (d_other_codes d) ->
+  run_errs ref d e (with_error (Some (mkE c (e_msg ea) (e_details ea))) a) = [].
+Proof. exact run_len_other_code_proof. Qed.
+Print Assumptions run_len_other_code.
+
+Theorem run_dev_code : forall ref d e a ee ea,
+  r_error e = Some ee -> r_error a = Some ea ->
+  e_code ea <> e_code ee -> ~ In (e_code ea) (d_other_codes d) ->
+  In ECode (run_errs ref d e a).
+Proof. exact run_dev_code_proof. Qed.
+Print Assumptions run_dev_code.
+
+Theorem run_no_merge_elsewhere : forall ref d e a,
+  ~ may_merge d e -> run_errs ref d e a = [] ->
+  included (r_headers e) (r_headers a) /\ included (r_trailers e) (r_trailers a).
+Proof. exact run_no_merge_elsewhere_proof. Qed.
+Print Assumptions run_no_merge_elsewhere.
+
+Theorem probe_code_allowed : forall ref d e ee c,
+  r_error e = Some ee -> run_errs ref d e e = [] ->
+  c = e_code ee \/ In c (d_other_codes d) ->
+  run_errs ref d e (probe_code e c) = [].
+Proof. exact probe_code_allowed_proof. Qed.
+Print Assumptions probe_code_allowed.
+
+Theorem probe_code_flagged : forall ref d e ee c,
+  r_error e = Some ee -> c <> e_code ee -> ~ In c (d_other_codes d) ->
+  In ECode (run_errs ref d e (probe_code e c)).
+Proof. exact probe_code_flagged_proof. Qed.
+Print Assumptions probe_code_flagged.
+
 (* ---- non-vacuity: both sides of the iff occur; the window edges; the merged form ---- *)
 Definition ex_hdrs := [mkH (bs "X-A") [bs "1"; bs "2"]].
 Definition ex_trls := [mkH (bs "x-t") [bs "9"]].
@@ -315,6 +355,19 @@ Example ex_merged_passes_on_unary : assert_errs (mkD stream_unary []) ex_err ex_
 Proof. vm_compute. reflexivity. Qed.
 Example ex_merged_fails_on_server_stream : assert_errs (mkD 3 []) ex_err ex_err_merged <> [].
 Proof. vm_compute. discriminate. Qed.
+
+(* an alternative code (first, middle, last of the list) passes through the runner, any other is flagged *)
+Definition ex_d_alt := mkD 3 [14; 2; 9].
+Definition ex_err_plain := mkR [] [] [] (Some (mkE 8 None [])) None 0%Z.
+Example ex_alternatives_pass_through_runner :
+  map (fun c => is_nil (run_errs false ex_d_alt ex_err_plain (probe_code ex_err_plain c))) [8; 14; 2; 9; 13]
+  = [true; true; true; true; false].
+Proof. vm_compute. reflexivity. Qed.
+Definition ex_err_ht := mkR [mkH (bs "x-h") [bs "1"]] [mkH (bs "x-t") [bs "9"]] [] (Some (mkE 8 None [])) None 0%Z.
+Example ex_merged_probe_separates_streams :
+  (run_errs true (mkD stream_client []) ex_err_ht (probe_all_trailers ex_err_ht) = []) /\
+  (run_errs true (mkD 4 []) ex_err_ht (probe_all_trailers ex_err_ht) <> []).
+Proof. split; vm_compute; [reflexivity|discriminate]. Qed.
 
 Example ex_canon :
   canon_vals [bs " a , b,c ,  d "; bs "e"] = [bs " a"; bs "b"; bs "c"; bs " d "; bs "e"].
